@@ -415,7 +415,10 @@ def _check_files(repo, r4, ci):
         return (k[0] == "truth" and "isinstance(" in k[1] and ("Tuple" in k[1] or "tuple" in k[1]) and not t) or (k[0] == "==" and "3" in k[1:] and any(x.startswith("len(") for x in k[1:]) and not t)
 
     def ints_bad(k, t):
-        return k[0] == "truth" and k[1].startswith("isinstance(") and k[1].endswith(", int)") and not t
+        if k[0] == "truth" and k[1].startswith("isinstance(") and k[1].endswith(", int)") and not t:
+            return True
+        # (the same asked of every element at once: all(isinstance(f, int) for f in <the unpickled object>))
+        return k[0] == "truth" and k[1].replace("all((", "all(").startswith("all(isinstance(") and ", int) for " in k[1] and not t
     vraises = [alt for n, name, _f in Fi.raises() if name and name.split(".")[-1] == "ValueError" for alt in (Fi.alts(n.id) or [])]
     r4.require(any(any(shape_bad(k, t) for k, t in alt) for alt in vraises) and any(any(ints_bad(k, t) for k, t in alt) for alt in vraises), init, "meta validated",
                "open mode no longer validates the metadata tuple")
